@@ -66,6 +66,13 @@ theorem meta_valid_is_model (e : ExtGeom) (img : Img) (c : Cls)
       .ok (metaValid e img c) :=
   Src.meta_valid_eq e img c hisd hesd h4
 
+/-- **`check_valid` as written in dcmmeta.py is the model's `checkValid`** over the abstraction
+    `CV.Content` of the content dictionary: it returns iff the model accepts and raises
+    InvalidExtensionError otherwise -/
+theorem check_valid_is_model (c : CV.Content) :
+    Py.check_valid c = if CV.checkValid c then .ok () else .error PyErr.invalidExtension :=
+  Src.check_valid_eq c
+
 /-- the translator translated every function of dcmmeta.py it is asked for -/
 theorem translator_complete_meta : Gen.codeMissingMeta = [] := rfl
 
